@@ -651,3 +651,212 @@ Proof.
   - clear -Hall. induction Hall as [|p ps [_ Hp] _ IH]; simpl; constructor; auto.
   - auto.
 Qed.
+
+(* ------------------------------------------------------------------------------------------- *)
+(* The transcription of CoinGrinder returns only valid selections *)
+Section CGProofs.
+Variable pool : list group.
+Variable sffo : bool.
+Variable la mtw : list Z.
+Variables total_target maxw : Z.
+
+Definition cg_best_ok (best : list nat) (bw : Z) : Prop :=
+  bw <= maxw /\
+  (best = [] \/
+   (desc (length pool) best /\ total_target <= sumi pool (amt sffo) best /\ sumi pool g_weight best = bw)).
+
+Definition cinv (st : bst) : Prop :=
+  desc (b_next st) (b_cs st) /\ (b_next st <= length pool)%nat /\
+  b_amt st = sumi pool (amt sffo) (b_cs st) /\ b_w st = sumi pool g_weight (b_cs st) /\
+  cg_best_ok (b_best st) (b_bestw st).
+
+Lemma cg_deselect_last_inv st st1 : cinv st -> deselect_last pool sffo st = Some st1 ->
+  cinv st1 /\ b_try st1 = b_try st /\ b_next st1 = b_next st /\
+  exists i, b_cs st = i :: b_cs st1 /\ desc i (b_cs st1).
+Proof.
+  unfold deselect_last, cinv. intros [Hd [Hn [Ha [Hw Hb]]]] H.
+  destruct (b_cs st) as [|i rest] eqn:Ecs; [discriminate|].
+  destruct (nth_error pool i) as [u|] eqn:Eu; [|discriminate].
+  inversion H; subst st1; clear H. simpl.
+  inversion Hd as [|? ? ? Hi Hd']; subst.
+  rewrite (sumi_cons _ _ _ _ _ Eu) in Ha. rewrite (sumi_cons _ _ _ _ _ Eu) in Hw.
+  split; [|split; [reflexivity|split; [reflexivity|exists i; split; auto]]].
+  split; [eapply desc_weaken; eauto; lia|]. split; [auto|].
+  split; [lia|]. split; [lia|]. exact Hb.
+Qed.
+
+Lemma cg_set_next_inv st n : (n <= length pool)%nat -> desc n (b_cs st) -> cinv st -> cinv (set_next st n).
+Proof. unfold cinv, set_next. simpl. intros Hn Hd [_ [_ H]]. split; auto. Qed.
+
+Lemma cg_shift_loop_inv : forall fuel st st' done,
+  cinv st -> shift_loop pool sffo fuel st = Some (st', done) -> cinv st' /\ b_try st' = b_try st.
+Proof.
+  induction fuel as [|f IH]; intros st st' done Hinv H; [discriminate|].
+  cbn [shift_loop] in H.
+  destruct (b_cs st) as [|i rest] eqn:Ecs.
+  - inversion H; subst. auto.
+  - destruct (deselect_last pool sffo st) as [st1|] eqn:Ed; [|discriminate].
+    destruct (cg_deselect_last_inv _ _ Hinv Ed) as [Hinv1 [Htry1 [Hnext1 [i' [Hcs Hdesc]]]]].
+    rewrite Ecs in Hcs. inversion Hcs; subst i'. clear Hcs.
+    destruct (skip_clones pool sffo (S (length pool)) (S i)) as [[nxt again]|] eqn:Es; [|discriminate].
+    apply skip_clones_bounds in Es. destruct Es as [Hge Hlt].
+    assert (Hinv2 : cinv (set_next st1 nxt)).
+    { apply cg_set_next_inv; auto; [lia|]. eapply desc_weaken; eauto. lia. }
+    destruct again.
+    + apply IH in H; auto. destruct H as [Hi1 Hi2]. split; auto. rewrite Hi2. simpl. auto.
+    + inversion H; subst. split; auto.
+Qed.
+
+Lemma cg_eval_best_ok st bamt cs' amt' w' lah u mt cut shift mwe' best' bestw' bamt' :
+  cg_best_ok (b_best st) (b_bestw st) ->
+  desc (length pool) cs' -> amt' = sumi pool (amt sffo) cs' -> w' = sumi pool g_weight cs' ->
+  cg_eval sffo total_target maxw st bamt cs' amt' w' lah u mt = (cut, shift, mwe', best', bestw', bamt') ->
+  cg_best_ok best' bestw'.
+Proof.
+  intros Hb Hd Ha Hw. unfold cg_eval.
+  destruct (amt' + lah <? total_target) eqn:E1; [intros H; inversion H; subst; auto|].
+  destruct (b_bestw st <? w') eqn:E2; [intros H; inversion H; subst; auto|].
+  destruct (total_target <=? amt') eqn:E3.
+  - destruct ((w' <? b_bestw st) || ((w' =? b_bestw st) && (amt' <? bamt))) eqn:E4; intros H; inversion H; subst; auto.
+    destruct Hb as [Hb1 _]. split; [lia|]. right. split; auto. split; [lia|reflexivity].
+  - destruct (negb _ && _); intros H; inversion H; subst; auto.
+Qed.
+
+Lemma cg_iter_inv st bamt : cinv st ->
+  match cg_iter pool sffo la mtw total_target maxw st bamt with
+  | CgCont st' _ => cinv st' /\ b_try st' = b_try st + 1 /\ b_try st' < TOTAL_TRIES
+  | CgStop st' _ _ => cinv st'
+  | CgErr => True
+  | CgFuel => False
+  end.
+Proof.
+  intros Hinv. unfold cg_iter.
+  destruct (nth_error pool (b_next st)) as [u|] eqn:Eu; [|exact I].
+  destruct (nth_error la (b_next st)) as [lah|] eqn:El; [|exact I].
+  destruct (nth_error mtw (b_next st)) as [mt|] eqn:Em; [|exact I].
+  assert (Hlt : (b_next st < length pool)%nat) by (apply nth_error_Some; congruence).
+  destruct Hinv as [Hd [Hn [Ha [Hw Hb]]]].
+  destruct (cg_eval sffo total_target maxw st bamt (b_next st :: b_cs st) (b_amt st + amt sffo u)
+              (b_w st + g_weight u) lah u mt) as [[[[[cut shift] mwe'] best'] bestw'] bamt'] eqn:Ee.
+  assert (Hsum : forall f, sumi pool f (b_next st :: b_cs st) = f u + sumi pool f (b_cs st)).
+  { intros f. apply sumi_cons; auto. }
+  assert (Hd1 : desc (S (b_next st)) (b_next st :: b_cs st)) by (constructor; auto).
+  assert (Hb' : cg_best_ok best' bestw').
+  { eapply cg_eval_best_ok; [exact Hb| | | |exact Ee].
+    - eapply desc_weaken; eauto.
+    - rewrite Hsum; lia.
+    - rewrite Hsum; lia. }
+  set (st1 := mkB (b_next st :: b_cs st) (b_amt st + amt sffo u) (b_w st + g_weight u) (b_waste st + gwaste u)
+                  best' bestw' (S (b_next st)) (b_try st + 1) mwe').
+  assert (Hinv1 : cinv st1).
+  { unfold cinv, st1. simpl. split; auto. split; [lia|]. rewrite !Hsum. repeat split; try lia; apply Hb'. }
+  destruct (TOTAL_TRIES <=? b_try st + 1) eqn:Et; [exact Hinv1|].
+  destruct (cut || Nat.eqb (S (b_next st)) (length pool)) eqn:Ecut.
+  - destruct (deselect_last pool sffo st1) as [st2|] eqn:Ed; [|exact I].
+    destruct (cg_deselect_last_inv _ _ Hinv1 Ed) as [Hinv2 [Htry2 _]].
+    cbn [orb].
+    destruct (shift_loop pool sffo (S (length pool)) st2) as [[st3 done]|] eqn:Es; [|exact I].
+    destruct (cg_shift_loop_inv _ _ _ _ Hinv2 Es) as [Hinv3 Htry3].
+    destruct done; [exact Hinv3|]. split; auto. change (b_try st1) with (b_try st + 1) in Htry2. split; lia.
+  - cbn [orb]. destruct shift.
+    + destruct (shift_loop pool sffo (S (length pool)) st1) as [[st3 done]|] eqn:Es; [|exact I].
+      destruct (cg_shift_loop_inv _ _ _ _ Hinv1 Es) as [Hinv3 Htry3].
+      destruct done; [exact Hinv3|]. split; auto. change (b_try st1) with (b_try st + 1) in Htry3. split; lia.
+    + split; auto. change (b_try st1) with (b_try st + 1). split; lia.
+Qed.
+
+Lemma cg_loop_inv : forall fuel st bamt st' bamt' c,
+  cinv st -> cg_loop pool sffo la mtw total_target maxw fuel st bamt = CgStop st' bamt' c -> cinv st'.
+Proof.
+  induction fuel as [|f IH]; simpl; intros st bamt st' bamt' c Hinv H; [discriminate|].
+  pose proof (cg_iter_inv st bamt Hinv) as Hit.
+  destruct (cg_iter pool sffo la mtw total_target maxw st bamt) as [| |st1 b1|st1 b1 c1]; try discriminate.
+  - destruct Hit as [Hinv1 _]. eapply IH; eauto.
+  - inversion H; subst. exact Hit.
+Qed.
+
+Lemma cg_loop_fuel : forall fuel st bamt,
+  cinv st -> b_try st < TOTAL_TRIES -> TOTAL_TRIES - b_try st <= Z.of_nat fuel ->
+  cg_loop pool sffo la mtw total_target maxw fuel st bamt <> CgFuel.
+Proof.
+  induction fuel as [|f IH]; intros st bamt Hinv Hlt Hfuel; [exfalso; change (Z.of_nat 0) with 0 in Hfuel; lia|].
+  cbn [cg_loop].
+  pose proof (cg_iter_inv st bamt Hinv) as Hit.
+  destruct (cg_iter pool sffo la mtw total_target maxw st bamt) as [| |st1 b1|st1 b1 c1]; try discriminate; [destruct Hit|].
+  destruct Hit as [Hinv1 [Htry Hlt1]]. apply IH; auto. lia.
+Qed.
+End CGProofs.
+
+Lemma cg_core_valid sffo pool target change_target maxw sel s w c t :
+  cg_core sffo pool target change_target maxw = BnbSome sel s w c t ->
+  pick_at 0 pool sel = Some s /\
+  target + change_target <= sum_by (amt sffo) s /\
+  sum_by g_weight s <= maxw /\
+  w = sum_by g_weight s.
+Proof.
+  unfold cg_core. destruct (lookahead (map (amt sffo) pool)) as [la total].
+  destruct (min_tail (map g_weight pool)) as [mtw mm].
+  destruct (total <? target + change_target); [discriminate|].
+  set (init := mkB [] 0 0 0 [] maxw 0%nat 0 false).
+  assert (Hinit : cinv pool sffo (target + change_target) maxw init).
+  { unfold cinv, cg_best_ok, init, sumi. simpl. split; [constructor|]. split; [lia|]. repeat split; auto; lia. }
+  destruct (cg_loop pool sffo la mtw (target + change_target) maxw (Z.to_nat TOTAL_TRIES) init MAX_MONEY)
+    as [| |st1 b1|st1 b1 c1] eqn:El; try discriminate.
+  apply cg_loop_inv in El; auto.
+  destruct El as [_ [_ [_ [_ Hb]]]].
+  destruct (b_best st1) as [|b0 best] eqn:Eb; [discriminate|].
+  destruct (pick_at 0 pool (rev (b0 :: best))) as [s0|] eqn:Ep; [|discriminate].
+  intros H. inversion H; subst. clear H.
+  destruct Hb as [Hmax [Hb|[Hd [Hamt Hwt]]]]; [discriminate|].
+  pose proof (pick_at_nth _ _ _ _ Ep) as Hn.
+  assert (Hn' : map Some s = map (nth_error pool) (rev (b0 :: best))).
+  { rewrite Hn. apply map_ext. intros j. rewrite Nat.sub_0_r. reflexivity. }
+  assert (Hs : forall f, sum_by f s = sumi pool f (b0 :: best)).
+  { intros f. rewrite (sum_by_nth pool f _ _ Hn'). apply sumi_rev. }
+  split; auto. rewrite !Hs. repeat split; lia.
+Qed.
+
+Lemma cg_core_fuel_sufficient sffo pool la mtw total_target maxw :
+  cg_loop pool sffo la mtw total_target maxw (Z.to_nat TOTAL_TRIES) (mkB [] 0 0 0 [] maxw 0%nat 0 false) MAX_MONEY <> CgFuel.
+Proof.
+  apply cg_loop_fuel.
+  - unfold cinv, cg_best_ok, sumi. simpl. split; [constructor|]. split; [lia|]. repeat split; auto; lia.
+  - cbn [b_try]. unfold TOTAL_TRIES. lia.
+  - cbn [b_try]. rewrite Z2Nat.id; unfold TOTAL_TRIES; lia.
+Qed.
+
+Lemma coin_grinder_valid sffo pool target change_target maxw sel s w c t orig :
+  coin_grinder sffo pool target change_target maxw = (BnbSome sel s w c t, orig) ->
+  NoDup orig /\
+  Forall2 (fun i g => nth_error pool i = Some g) orig s /\
+  Forall (fun g => 0 < amt sffo g) s /\
+  target + change_target <= sum_by (amt sffo) s /\
+  sum_by g_weight s <= maxw /\
+  w = sum_by g_weight s.
+Proof.
+  unfold coin_grinder.
+  set (cand := filter (fun p : nat * group => 0 <? amt sffo (snd p)) (tag_pool pool)).
+  set (tagged := sort_by (fun a b : nat * group => descending_effval_weight sffo (snd a) (snd b)) cand).
+  destruct (cg_core sffo (map snd tagged) target change_target maxw) as [|we|sel0 s0 w0 c0 t0] eqn:Ec;
+    try (intros H; inversion H; fail).
+  destruct (pick_at 0 tagged sel0) as [ps|] eqn:Eps; [|intros H; inversion H].
+  intros H. inversion H; subst. clear H.
+  apply cg_core_valid in Ec. destruct Ec as [Hp [Hamt [Hwt Hw]]].
+  rewrite pick_at_map, Eps in Hp. simpl in Hp. inversion Hp; subst s. clear Hp.
+  assert (Hperm : Permutation tagged cand) by apply sort_by_perm.
+  assert (Hsub : Sub ps tagged) by (eapply pick_at_Sub; eauto).
+  assert (Hall : Forall (fun p => nth_error pool (fst p) = Some (snd p) /\ 0 < amt sffo (snd p)) ps).
+  { apply Forall_forall. intros [i g] Hin.
+    assert (Hc : In (i, g) cand). { eapply Permutation_in; [exact Hperm|]. eapply Sub_In; eauto. }
+    unfold cand in Hc. apply filter_In in Hc. destruct Hc as [Hc1 Hc2]. simpl in *.
+    unfold tag_pool in Hc1. apply tag_In in Hc1. destruct Hc1 as [_ Hc1]. rewrite Nat.sub_0_r in Hc1.
+    split; auto. lia. }
+  split; [|split; [|split]].
+  - eapply Sub_NoDup; [apply Sub_map; exact Hsub|].
+    eapply Permutation_NoDup; [apply Permutation_sym; apply Permutation_map; exact Hperm|].
+    eapply Sub_NoDup; [apply Sub_map; apply filter_Sub|].
+    unfold tag_pool. rewrite tag_fst. apply seq_NoDup.
+  - clear -Hall. induction Hall as [|p ps [Hp _] _ IH]; simpl; constructor; auto.
+  - clear -Hall. induction Hall as [|p ps [_ Hp] _ IH]; simpl; constructor; auto.
+  - auto.
+Qed.
